@@ -147,7 +147,8 @@ func (w *W) Close() {
 }
 
 func (w *W) viol(prop, key, format string, a ...any) {
-	w.V = append(w.V, rt.Violation{Property: prop, Key: prop + "/" + key, What: fmt.Sprintf(format, a...)})
+	// prop may name several properties ("C01,C05"): the violation is reported by each of their checks, keyed <ID>/<key>
+	w.V = append(w.V, rt.Violation{Property: prop, Key: key, What: fmt.Sprintf(format, a...)})
 }
 
 // syncKeysets records keysets in creation (derivation index) order from the mint's own listing.
@@ -410,11 +411,11 @@ func (w *W) Invariants() {
 			prop, key := "C15", "store-state-differs-from-model"
 			switch {
 			case p.St == Spent && real != Spent:
-				prop, key = "C01", "spent-proof-not-spent-in-store"
+				prop, key = "C01,C15", "spent-proof-not-spent-in-store"
 			case p.St == Pending || real == Pending:
-				prop, key = "C05", "melt-input-state-not-following-outcome"
+				prop, key = "C05,C15", "melt-input-state-not-following-outcome"
 			case p.St == Unspent && real == Spent:
-				prop, key = "C06", "proof-spent-without-accepted-operation"
+				prop, key = "C06,C15", "proof-spent-without-accepted-operation"
 			}
 			w.viol(prop, key+fmt.Sprintf("/model=%s/store=%s", stName[p.St], stName[real]), "p%d: model %s, store %s", i, stName[p.St], stName[real])
 		}
